@@ -397,7 +397,37 @@ func (c *Ctx) LowerBound(v ssa.Value, at ssa.Instruction) (int64, bool) {
 	return c.lowerBound(v, at, 0)
 }
 
+// edgeFact returns the fact established by taking the edge pred→succ when pred
+// ends in an If with distinct successors.
+func (c *Ctx) edgeFact(pred, succ *ssa.BasicBlock) (Fact, bool) {
+	if len(pred.Instrs) == 0 || len(pred.Succs) != 2 || pred.Succs[0] == pred.Succs[1] {
+		return Fact{}, false
+	}
+	iff, ok := pred.Instrs[len(pred.Instrs)-1].(*ssa.If)
+	if !ok {
+		return Fact{}, false
+	}
+	branch := pred.Succs[0] == succ
+	cd := core.CondOf(iff.Cond)
+	truth := branch
+	if cd.Neg {
+		truth = !truth
+	}
+	if cd.Op != token.ILLEGAL && cd.Op != 0 {
+		op := cd.Op
+		if !truth {
+			op = negate(op)
+		}
+		return Fact{Op: op, X: cd.X, Y: cd.Y, If: iff}, true
+	}
+	return Fact{Bool: cd.X, Truth: truth, If: iff}, true
+}
+
 func (c *Ctx) lowerBound(v ssa.Value, at ssa.Instruction, d int) (int64, bool) {
+	return c.lowerBoundX(v, at, d, nil)
+}
+
+func (c *Ctx) lowerBoundX(v ssa.Value, at ssa.Instruction, d int, extra []Fact) (int64, bool) {
 	if d > 5 {
 		return 0, false
 	}
@@ -416,7 +446,8 @@ func (c *Ctx) lowerBound(v ssa.Value, at ssa.Instruction, d int) (int64, bool) {
 			upd(0)
 		}
 	}
-	for _, f := range c.FactsAt(at) {
+	facts := append(append([]Fact{}, c.FactsAt(at)...), extra...)
+	for _, f := range facts {
 		if f.Op == token.ILLEGAL || f.Op == 0 {
 			continue
 		}
@@ -480,7 +511,11 @@ func (c *Ctx) phiLower(phi *ssa.Phi, at ssa.Instruction, d int) (int64, bool) {
 		}
 		pred := phi.Block().Preds[i]
 		term := pred.Instrs[len(pred.Instrs)-1]
-		lb, ok := c.lowerBound(e, term, d+1)
+		var extra []Fact
+		if ef, ok := c.edgeFact(pred, phi.Block()); ok {
+			extra = append(extra, ef)
+		}
+		lb, ok := c.lowerBoundX(e, term, d+1, extra)
 		if !ok {
 			return 0, false
 		}
